@@ -28,12 +28,15 @@ def sh(cmd, cwd=None, timeout=900, env=None):
 
 def main():
     pid = sys.argv[1]
-    src = '/tmp/seed/%s/_out' % pid
-    name = sys.argv[2] if len(sys.argv) > 2 else pid
+    variant = sys.argv[2] if len(sys.argv) > 2 else ''        # '' (round 1) | A | B (round 2)
+    root = '/tmp/seed/%s' % pid if not variant else '/tmp/seed2/%s' % pid
+    src = root + '/_out'
+    name = pid if not variant else '%s-%s' % (pid, variant)
     dst = os.path.join(HERE, 'seeded', name)
     os.makedirs(dst, exist_ok=True)
-    for f in ('patch.diff', 'demo.py', 'NOTES.md'):
-        shutil.copy(os.path.join(src, f), os.path.join(dst, f))
+    shutil.copy(os.path.join(src, 'patch%s.diff' % variant), os.path.join(dst, 'patch.diff'))
+    shutil.copy(os.path.join(src, 'demo%s.py' % variant), os.path.join(dst, 'demo.py'))
+    shutil.copy(os.path.join(src, 'NOTES.md'), os.path.join(dst, 'NOTES.md'))
     patch = os.path.join(dst, 'patch.diff')
     meta = {'breaks': pid, 'source': 'independent sub-agent given only the property text and a scratch worktree'}
     rc, out = sh('git -C /repo apply --check %s' % patch)
@@ -49,7 +52,7 @@ def main():
     try:
         demo = os.path.join(wt, '_out')
         os.makedirs(demo, exist_ok=True)
-        txt = open(os.path.join(dst, 'demo.py')).read().replace('/tmp/seed/%s' % pid, wt)
+        txt = open(os.path.join(dst, 'demo.py')).read().replace(root, wt)
         open(os.path.join(demo, 'demo.py'), 'w').write(txt)
         env = dict(os.environ, PYTHONPATH=wt, PYTHONDONTWRITEBYTECODE='1')
         t0 = time.time()
